@@ -902,8 +902,11 @@ def build_cases(ctx, quick):
     for meth, n in n_emb.items():
         for j in range(n):
             generated += variants(rng, gen_emb(rng, meth, "small" if (quick or j % 4) else "large"), 2, 1)
-    for meth in (("pca", "rp") if quick else FIVE):
-        sizes = BOUNDARY_N_QUICK if quick else (BOUNDARY_N_THOROUGH if meth in ("pca", "rp") else [255, 256, 257])
+    for meth in FIVE:
+        if quick:
+            sizes = BOUNDARY_N_QUICK if meth in ("pca", "rp") else [256, 257]
+        else:
+            sizes = BOUNDARY_N_THOROUGH if meth in ("pca", "rp") else [255, 256, 257, 512]
         for N in sizes:
             generated += variants(rng, gen_boundary_emb(rng, meth, N), 3, 2)
     for c in generated:
@@ -987,7 +990,8 @@ def run(ctx):
              "large-offset / coincident / generic data, with unseen query vectors and dyadic affine combinations "
              "(a in {0..1, -1/2, 3/2}); the fifteen other methods once each on a benign sheet.  Wave 2: exact stream with "
              "mixed magnitudes (mean 2^-41..2^-44 against integer data and vice versa) and at boundary sizes (N in 255, "
-             "256, 257, 512; D, d in 7..33); PCA / RandomProjection through the public API at N in 255, 256, 257, 512; "
+             "256, 257, 512; D, d in 7..33); PCA / RandomProjection through the public API at N in 255, 256, 257, 512, NPE / "
+             "LLTSA / LPP at N = 256, 257; "
              "every third generated case over a non-identity iterator range (offset block, permutation, subset, reversed, "
              "repeated ids; decoy samples elsewhere in the data set); every (internal: every second) case also as a scaled "
              "copy (data * 2^k, k in +-{10, 30, 40, 45, 52, 60}; input P * 2^j), tolerances relative to the data scale.  "
